@@ -505,8 +505,10 @@ class Composite(LexicalParent[Node], HasCreator, Node, ABC):
             child = self.children.get(label)
             if child is None:
                 continue
-            if child.executor is None:
-                child.executor = executor
+            # The local setting, whatever it is: a live executor was stripped from the
+            # copy, and instructions came back as a deserialized copy of what was
+            # assigned here (a different object, e.g. another shared-pool provider)
+            child.executor = executor
             if isinstance(child, Composite):
                 child._restore_child_executors(nested)
 
